@@ -109,6 +109,12 @@ func suNewFan(a kv) *suFan {
 	}
 	if a.bool("cfgmap", false) {
 		m := map[int]int{0: 0, 64: 64, 128: 128, 192: 192, 255: 255}
+		switch a.str("mapstyle", "identity") {
+		case "plateau": // a 3-speed fan over the full key range
+			m = map[int]int{0: 0, 40: 0, 80: 64, 120: 64, 160: 128, 200: 128, 230: 255, 255: 255}
+		case "shifted": // outputs differ from the keys
+			m = map[int]int{0: 10, 60: 70, 120: 130, 180: 190, 255: 250}
+		}
 		cfg.PwmMap = &m
 	}
 	switch f.kind {
